@@ -25,9 +25,9 @@ def mainLoopC (m : List Op) : Nat → Core → Core × List String × Ctl
     match readRecord c with
     | (c', false) => (c', [], .cont)
     | (c', true) =>
-      match runScriptC m c' with
-      | (c1, o1, .cont) => let r := mainLoopC m fuel c1; (r.1, o1 ++ r.2.1, r.2.2)
-      | r => r
+      match runScriptC m (rangeRule c').1 with
+      | (c1, o1, .cont) => let r := mainLoopC m fuel c1; (r.1, (rangeRule c').2 ++ o1 ++ r.2.1, r.2.2)
+      | (c1, o1, ctl) => (c1, (rangeRule c').2 ++ o1, ctl)
 
 def executeAllC (cfg : Cfg) (c : Core) : Core × Result :=
   executeAllG (runScriptC cfg.b) (mainLoopC cfg.m (cfg.input.length + 1)) (runScriptC cfg.e)
@@ -92,8 +92,8 @@ theorem mainLoop_spec (m : List Op) (fuel : Nat) (s : State) (h : CacheOk s.cach
     cases ok with
     | false => exact ⟨s.cache, h, by simp only [mainLoop, mainLoopC, hr]⟩
     | true =>
-      obtain ⟨c', hc', he⟩ := runScript_spec m ⟨c, s.cache⟩ h
-      rcases hcs : runScriptC m c with ⟨c1, o1, ctl⟩
+      obtain ⟨c', hc', he⟩ := runScript_spec m ⟨(rangeRule c).1, s.cache⟩ h
+      rcases hcs : runScriptC m (rangeRule c).1 with ⟨c1, o1, ctl⟩
       simp only [hcs] at he
       cases ctl with
       | cont =>
